@@ -85,7 +85,7 @@ func runTwoIPs(name string) (rec tRec) {
 		return rec
 	}
 	dial := func(n *p2p.VerifC18Node, addr string) error {
-		ctx, cancel := context.WithTimeout(context.Background(), 2*time.Second)
+		ctx, cancel := context.WithTimeout(context.Background(), scaled(2*time.Second))
 		defer cancel()
 		return n.ConnectAddr(ctx, addr)
 	}
